@@ -368,10 +368,14 @@ class Units:
                     self.reached += 1
                     if a != b:
                         self.conflicts.append((n, "`%s %s= %s` mixes %s and %s" % (render(n["l"]), "+" if n["op"] == "Add" else "-", render(n["r"])[:50], a, b)))
-        # return value against the function's own seed
+        # return value against the function's own seed: the tail and every explicit `return`
         ret = self.f.hir.get("expr") if self.f.hir.get("k") == "Block" else None
-        if ret is not None:
+        rets = [ret] if ret is not None else []
+        for n, ps in walk(self.f.hir):
+            if n.get("k") == "Ret" and "e" in n and not (n.get("mac") and "desugar:QuestionMark" in n["mac"]) and not any(p.get("k") == "Closure" for p in ps):
+                rets.append(n["e"])
+        for r_ in rets:
             for suf, v in CALLS.items():
                 if v[0] and (path_ends(self.f.key, suf) or (self.f.trait_item and path_ends(self.f.trait_item, suf))):
-                    self.require(ret, v[0], "return value of %s" % suf, ret)
+                    self.require(r_, v[0], "return value of %s" % suf, r_)
         return self.conflicts, self.reached
